@@ -163,3 +163,135 @@ pub fn parse_cli_diags(stderr: &str) -> Vec<CliDiag> {
     }
     v
 }
+
+// ---------------------------------------------------------------------------------- LSP
+use serde_json::{json, Value};
+
+pub fn frame(v: &Value) -> Vec<u8> {
+    let body = serde_json::to_vec(v).unwrap();
+    let mut out = format!("Content-Length: {}\r\n\r\n", body.len()).into_bytes();
+    out.extend(body);
+    out
+}
+
+/// Parses a byte stream of LSP frames; returns the frames and whether trailing garbage was seen.
+pub fn parse_frames(data: &[u8]) -> (Vec<Value>, bool) {
+    let mut v = vec![];
+    let mut i = 0;
+    while i < data.len() {
+        // header
+        let rest = &data[i..];
+        let hdr_end = match find(rest, b"\r\n\r\n") {
+            Some(p) => p,
+            None => return (v, true),
+        };
+        let hdr = String::from_utf8_lossy(&rest[..hdr_end]).to_string();
+        let mut len: Option<usize> = None;
+        for l in hdr.split("\r\n") {
+            if let Some(x) = l.to_ascii_lowercase().strip_prefix("content-length:") {
+                len = x.trim().parse().ok();
+            }
+        }
+        let len = match len {
+            Some(l) => l,
+            None => return (v, true),
+        };
+        let start = i + hdr_end + 4;
+        if start + len > data.len() {
+            return (v, true);
+        }
+        match serde_json::from_slice::<Value>(&data[start..start + len]) {
+            Ok(j) => v.push(j),
+            Err(_) => return (v, true),
+        }
+        i = start + len;
+    }
+    (v, false)
+}
+
+fn find(h: &[u8], n: &[u8]) -> Option<usize> {
+    h.windows(n.len()).position(|w| w == n)
+}
+
+pub struct LspRun {
+    pub frames: Vec<Value>,
+    pub garbage: bool,
+    pub status: Option<i32>,
+    pub stderr: String,
+    pub timed_out: bool,
+}
+
+/// Runs `ironplcc lsp --stdio` on a complete script (all messages written, stdin closed) and
+/// collects everything the server wrote.  The script should end with shutdown + exit.
+pub fn lsp_run(messages: &[Value]) -> LspRun {
+    let mut input = vec![];
+    for m in messages {
+        input.extend(frame(m));
+    }
+    let mut cmd = Command::new(ironplcc());
+    cmd.args(["lsp", "--stdio"]).stdin(Stdio::piped()).stdout(Stdio::piped()).stderr(Stdio::piped());
+    cmd.env_remove("RUST_LOG").env("RUST_BACKTRACE", "0");
+    let mut child = cmd.spawn().expect("spawn ironplcc lsp");
+    let mut si = child.stdin.take().unwrap();
+    let mut out = child.stdout.take().unwrap();
+    let mut err = child.stderr.take().unwrap();
+    let to = std::thread::spawn(move || {
+        let mut s = Vec::new();
+        let _ = out.read_to_end(&mut s);
+        s
+    });
+    let te = std::thread::spawn(move || {
+        let mut s = Vec::new();
+        let _ = err.read_to_end(&mut s);
+        s
+    });
+    let tw = std::thread::spawn(move || {
+        let _ = si.write_all(&input);
+        let _ = si.flush();
+        // stdin closes when `si` is dropped
+    });
+    let start = Instant::now();
+    let mut timed_out = false;
+    let status = loop {
+        match child.try_wait() {
+            Ok(Some(st)) => break st.code(),
+            Ok(None) => {
+                if start.elapsed() > Duration::from_secs(90) {
+                    let _ = child.kill();
+                    timed_out = true;
+                    break child.wait().ok().and_then(|s| s.code());
+                }
+                std::thread::sleep(Duration::from_millis(1));
+            }
+            Err(_) => break None,
+        }
+    };
+    let _ = tw.join();
+    let so = to.join().unwrap_or_default();
+    let se = te.join().unwrap_or_default();
+    let (frames, garbage) = parse_frames(&so);
+    LspRun { frames, garbage, status, stderr: String::from_utf8_lossy(&se).to_string(), timed_out }
+}
+
+pub fn lsp_initialize(id: i64) -> Value {
+    json!({"jsonrpc":"2.0","id":id,"method":"initialize","params":{"processId":null,"rootUri":null,"capabilities":{}}})
+}
+pub fn lsp_initialized() -> Value {
+    json!({"jsonrpc":"2.0","method":"initialized","params":{}})
+}
+pub fn lsp_shutdown(id: i64) -> Value {
+    json!({"jsonrpc":"2.0","id":id,"method":"shutdown","params":null})
+}
+pub fn lsp_exit() -> Value {
+    json!({"jsonrpc":"2.0","method":"exit","params":null})
+}
+pub fn lsp_did_open(uri: &str, version: i64, text: &str) -> Value {
+    json!({"jsonrpc":"2.0","method":"textDocument/didOpen","params":{"textDocument":{"uri":uri,"languageId":"61131-3-st","version":version,"text":text}}})
+}
+pub fn lsp_did_change(uri: &str, version: i64, texts: &[&str]) -> Value {
+    let changes: Vec<Value> = texts.iter().map(|t| json!({"text": t})).collect();
+    json!({"jsonrpc":"2.0","method":"textDocument/didChange","params":{"textDocument":{"uri":uri,"version":version},"contentChanges":changes}})
+}
+pub fn lsp_semantic_tokens(id: Value, uri: &str) -> Value {
+    json!({"jsonrpc":"2.0","id":id,"method":"textDocument/semanticTokens/full","params":{"textDocument":{"uri":uri}}})
+}
